@@ -9,6 +9,8 @@ git -C /repo worktree add -q $W HEAD || exit 2
 trap 'git -C /repo worktree remove --force $W' EXIT
 cd $W
 cp $M/*_test.go . 2>/dev/null
+for f in $M/*_test.go.txt; do [ -f "$f" ] && cp "$f" "./$(basename "${f%.txt}")"; done
+for d in $M/*/; do [ -d "$d" ] && for f in $d*_test.go; do [ -f "$f" ] && cp "$f" "./$(basename $d)/"; done; done
 DEMO=$(python3 -c "import json;print(json.load(open('$M/meta.json')).get('demo_cmd',''))" | sed "s#cd /tmp/mut_[A-Za-z0-9_]*#cd $W#g")
 echo "demo cmd: $DEMO"
 echo "--- without change"
@@ -17,7 +19,7 @@ tail -3 /tmp/confirm_without.txt
 git apply $M/patch.diff || { echo "PATCH DOES NOT APPLY"; exit 3; }
 go build ./... || { echo "BUILD FAILS"; exit 4; }
 echo "--- suite with change (demo excluded)"
-mkdir -p /tmp/confirm_demo_$$ && mv *mutation*_test.go /tmp/confirm_demo_$$/ 2>/dev/null
+mkdir -p /tmp/confirm_demo_$$ && mv *mutation*_test.go /tmp/confirm_demo_$$/ 2>/dev/null; mkdir -p /tmp/confirm_demo_$$/sub && for f in */*mutation*_test.go; do [ -f "$f" ] && mkdir -p /tmp/confirm_demo_$$/sub/$(dirname $f) && mv $f /tmp/confirm_demo_$$/sub/$f; done
 go test -count=1 ./... > /tmp/confirm_suite.txt 2>&1; RS=$?
 if [ $RS -ne 0 ]; then  # rafttest uses wall-clock timers and is flaky under load: retry the failing packages
   for pkg in $(grep -E "^FAIL\s+go.etcd.io" /tmp/confirm_suite.txt | awk '{print $2}'); do
@@ -26,7 +28,7 @@ if [ $RS -ne 0 ]; then  # rafttest uses wall-clock timers and is flaky under loa
   done
 fi
 tail -7 /tmp/confirm_suite.txt | grep -v "^raft20"
-mv /tmp/confirm_demo_$$/*_test.go . 2>/dev/null; rmdir /tmp/confirm_demo_$$
+mv /tmp/confirm_demo_$$/*_test.go . 2>/dev/null; (cd /tmp/confirm_demo_$$/sub && find . -name "*_test.go" | while read f; do mv $f '"$W"'/$f; done); rm -rf /tmp/confirm_demo_$$
 echo "--- demo with change"
 bash -c "$DEMO" > /tmp/confirm_with.txt 2>&1; R1=$?
 grep -E "^(--- FAIL|FAIL|ok|PASS)" /tmp/confirm_with.txt | head -5
